@@ -68,7 +68,7 @@ def main():
         print("confirm:", {k: v for k, v in res.items() if not k.endswith("_tail")})
         checks = {}
         for pid in props:
-            env = dict(os.environ, VERIF_REPO=repo)
+            env = dict(os.environ, VERIF_REPO=repo, VERIF_EVIDENCE_DIR=os.path.join(work, "evidence"))
             t0 = time.time()
             rc, out = sh("./check %s --tier quick" % pid, cwd=VERIF, env=env, timeout=3600)
             lines = [l for l in out.splitlines() if l.startswith(("VIOLATION", "RESULT", "INFRA", "SPEC-DRIFT", "KNOWN"))]
@@ -134,7 +134,7 @@ def eval_internal(work, repo, patch, demo, demo_dir, meta, sid, props):
     print("confirm:", {k: v for k, v in res.items() if not k.endswith("_tail")})
     checks = {}
     for pid in props:
-        env2 = dict(os.environ, VERIF_REPO=repo)
+        env2 = dict(os.environ, VERIF_REPO=repo, VERIF_EVIDENCE_DIR=os.path.join(work, "evidence"))
         t0 = time.time()
         rc, out = sh("./check %s --tier quick" % pid, cwd=VERIF, env=env2, timeout=3600)
         lines = out.splitlines()
